@@ -127,6 +127,7 @@ def o_history(case):
     lv = case.get("lv", 1)
     lp = case.get("lparsed", True)
     live = RTCMReader(live_stream, quitonerror=case.get("qoe", 1), validate=lv, parsed=lp)
+    live2 = []  # [reader in raise mode, its growing stream], built on first use
     kept = []  # one iterator object obtained once and kept for the whole history (via "kept-iter")
     live_expect = []
     if table_digest() != BASELINE:
@@ -179,6 +180,30 @@ def o_history(case):
                 except Exception:  # pylint: disable=broad-except
                     pass  # raise mode is not used here; a stream error for the truncated item is the library's choice
                 cls.add("live-after-truncated-ubx")
+            if op.get("tf") and not bt:
+                # a second long-lived reader, in RAISE mode, over its own growing file: the file ends inside a frame (the
+                # application catches what the reader raises, or gets nothing), then grows by a complete frame: that
+                # frame is delivered as a fresh reader delivers it - an abandoned frame is history like any other
+                if not live2:
+                    s2 = io.BytesIO()
+                    live2.extend([RTCMReader(s2, quitonerror=2, validate=lv, parsed=lp), s2])
+                r2, s2 = live2
+                for chunk, last in ((frame[: 1 + op["tf"] % (len(frame) - 1)], False), (frame, True)):
+                    pos2 = s2.tell()
+                    s2.seek(0, 2)
+                    s2.write(chunk)
+                    s2.seek(pos2)
+                    try:
+                        got2 = r2.read()
+                    except Exception as e:  # pylint: disable=broad-except
+                        got2 = ("exc", type(e).__name__)
+                    if last:
+                        want2 = list(RTCMReader(io.BytesIO(frame), quitonerror=0, validate=lv, parsed=lp))
+                        w_raw, w_par = want2[0] if want2 else (None, None)
+                        ok2 = got2[0] != "exc" and got2[0] == w_raw and (pub(got2[1]) if got2[1] is not None else None) == (pub(w_par) if w_par is not None else None)
+                        if want2 and not ok2:
+                            raise Fail("live-reader-differs-from-fresh", f"step {step} ({framing.ref_identity(payload)}): raise-mode reader whose file had ended inside a frame returned {got2[0] if got2[0] == 'exc' else 'another result'}{':' + str(got2[1]) if got2[0] == 'exc' else ''} for the complete frame that followed; a fresh reader returns the frame")
+                cls.add("raise-mode-reader-after-a-file-ending-inside-a-frame")
             pos = live_stream.tell()
             live_stream.seek(0, 2)
             live_stream.write(junk + frame)
@@ -288,6 +313,7 @@ def s_history(draw, tier):
             "via": st.sampled_from(["read", "next", "iter-next", "for-break", "kept-iter", "kept-iter"]),
             "ubx": st.one_of(st.none(), st.none(), st.none(), st.tuples(st.sampled_from([1, 8, 40, 200]), st.integers(0, 300)).map(list)),
             "lm": st.sampled_from([1, 1, 2]),
+            "tf": st.one_of(st.none(), st.none(), st.integers(1, 2000)),
             "mut": st.sampled_from([None, None, None, "truncate", "flip", "splice", "ones-from"]),
             "a": st.integers(0, 5000),
             "b": st.integers(0, 5000),
@@ -510,7 +536,7 @@ def _short(c):
 
 
 SUBS = [
-    Sub("parse_histories", o_history, strategy=s_history, examples=(60, 1200), rule="re-parse after a different identity and a failing parse", need={"re-parse": 1, "failing-parse": 1, "live": 1, "drain": 1, "live-after-junk": 1, "live-badtrailer-validate0": 1, "live-after-truncated-ubx": 1}, sample=_short),
+    Sub("parse_histories", o_history, strategy=s_history, examples=(60, 1200), rule="re-parse after a different identity and a failing parse", need={"re-parse": 1, "failing-parse": 1, "live": 1, "drain": 1, "live-after-junk": 1, "live-badtrailer-validate0": 1, "live-after-truncated-ubx": 1, "raise-mode-reader-after-a-file-ending-inside-a-frame": 1}, sample=_short),
     Sub("deterministic_schedules", o_sched, strategy=s_sched, examples=(10, 200), rule=">= 10 context switches inside the decoder", need={"switches-inside-decoder>=10": 1}, sample=_short),
     Sub("cold_start_concurrent_first_use", o_cold, strategy=s_cold, examples=(1, 10), rule="every case: fresh interpreters with 6 threads starting together", sample=_short),
     Sub("free_running_threads", o_stress, strategy=s_stress, examples=(3, 20), rule="every case (8 threads)", sample=_short),
